@@ -14,7 +14,7 @@ CONSTANTS K, Full    \* K: alternatives per cell in the reduced product; Full = 
 
 Ctors == <<"bool", "u8", "s16", "u32", "s64", "f32", "f64", "char", "string", "list", "list-string", "flist", "map",
            "record", "tuple", "variant", "enum", "option", "result", "result-empty", "flags", "flags33", "own", "borrow",
-           "future", "future-unit", "stream", "stream-unit", "errctx", "nested-list", "option-option">>
+           "future", "future-unit", "stream", "stream-unit", "errctx", "nested-list", "option-option", "tuple17", "tuple9">>
 
 TypeOf(c) ==
     CASE c \in {"bool", "u8", "s16", "u32", "s64", "f32", "f64", "char", "string", "errctx"} -> P(c)
@@ -39,6 +39,8 @@ TypeOf(c) ==
       [] c = "stream-unit" -> T_stream(NoT)
       [] c = "nested-list" -> T_list(T_list(P("string")))
       [] c = "option-option" -> T_opt(T_opt(P("u8")))
+      [] c = "tuple17" -> T_tup([i \in 1..17 |-> P("u32")])      \* more than MAX_FLAT_PARAMS core values
+      [] c = "tuple9" -> T_tup([i \in 1..9 |-> P("u32")])        \* between the async (4) and the sync (16) flattening limits
 
 Wraps == <<"bare", "typedef", "in-list", "in-option", "in-record", "in-variant", "in-tuple", "in-result-ok", "in-result-err",
            "in-future", "in-stream", "in-flist", "in-map-value", "world-type">>
